@@ -169,6 +169,14 @@ func runC16CLI(c *engine.Case) engine.Result {
 	fj := cli.WriteFile(dir, "in.json", c.A)
 	o1 := cli.Run(dir, cli.Bin(bin), []string{"-t", "json2yaml", fj}, nil)
 	res.Transitions++
+	// the same translation into an existing, longer file must leave exactly the same bytes
+	stale := cli.WriteFile(dir, "out.yaml", strings.Repeat("stale: output from an earlier run\n", 100))
+	o1f := cli.Run(dir, cli.Bin(bin), []string{"-t", "json2yaml", "-o", stale, fj}, nil)
+	res.Transitions++
+	if b, err := os.ReadFile(stale); o1.Exit == 0 && (o1f.Exit != 0 || err != nil || string(b) != o1.Stdout) {
+		res.Violation = fmt.Sprintf("jd -t json2yaml -o FILE over an existing file leaves %q, stdout gives %q", string(b), o1.Stdout)
+		return res
+	}
 	if o1.Exit != 0 {
 		res.Violation = fmt.Sprintf("jd -t json2yaml exited %d: %s", o1.Exit, firstLine(o1.Stderr))
 		return res
